@@ -557,7 +557,7 @@ func genAny(d int) *rapid.Generator[Val] {
 
 func TestGeneratedPools(t *testing.T) {
 	w := newWorld()
-	vt.Check(t, vt.N(2000, 60000), func(rt *rapid.T) {
+	vt.Check(t, vt.N(2000, 150000), func(rt *rapid.T) {
 		n := rapid.IntRange(2, 7).Draw(rt, "n")
 		pool := []Val{}
 		for i := 0; i < n; i++ {
